@@ -52,6 +52,17 @@ def op_state(b):
     return ("state", b.state.value)
 
 
+def op_lower(b):
+    # the operator lowers the limit of the live budget (a public attribute) while others use it
+    b.max_retries = 1
+    return ("set", 1)
+
+
+def op_raise(b):
+    b.max_retries = 5
+    return ("set", 5)
+
+
 def op_timer(b):
     return b.rv_clock.fire_timer(b)
 
@@ -68,7 +79,7 @@ def op_rem(b):
     return ("remaining", b.remaining())
 
 
-OPS = {"timer": op_timer, "allow": op_allow, "success": op_success, "failT": op_fail_t, "failS": op_fail_s, "cancel": op_cancel, "state": op_state, "c1": op_c1, "c2": op_c2, "rem": op_rem}
+OPS = {"lower": op_lower, "raise": op_raise, "timer": op_timer, "allow": op_allow, "success": op_success, "failT": op_fail_t, "failS": op_fail_s, "cancel": op_cancel, "state": op_state, "c1": op_c1, "c2": op_c2, "rem": op_rem}
 BREAKER_OPS = ["allow", "success", "failT", "failS", "cancel", "state"]
 BUDGET_OPS = ["c1", "c2", "rem"]
 
@@ -146,6 +157,12 @@ def mk_breaker(init, world, locked_clock=False):
 def mk_budget(init, world):
     def make():
         world.t = T0
+        if init.startswith("aged-"):
+            # a budget that has been around: N tokens granted so far (one bulk request), room for a few more
+            n = int(init.split("-")[1])
+            b = Budget(max_retries=n + 6, window_s=10.0)
+            b.consume(n)
+            return b
         b = Budget(max_retries=3, window_s=10.0)
         if init == "one-left":
             b.consume(2)
@@ -264,6 +281,19 @@ def programs_for(kind, rng, n):
             ("all-expired", [["c1"], ["c2"], ["rem"]]),
             ("expired-head+live", [["c2"], ["c1"]]),
             ("expired-head+live", [["c1"], ["c1"], ["c1"]]),
+            # long-lived budgets: whatever the component does "once in a while" (every so many grants) happens in the middle of a race
+            ("aged-1023", [["c1"], ["c1"]]),
+            ("aged-4095", [["c1"], ["c1"]]),
+            ("aged-4095", [["c1"], ["c1"], ["rem"]]),
+            ("aged-999", [["c1"], ["c2"]]),
+            ("aged-9999", [["c1"], ["c1"]]),
+            ("aged-65535", [["c1"], ["c1"]]),
+            # the limit of the live budget is changed by one thread while others ask
+            ("two-left", [["rem"], ["lower"]]),
+            ("one-left", [["rem", "rem"], ["lower"]]),
+            ("two-left", [["c1", "rem"], ["lower"], ["rem"]]),
+            ("full", [["rem"], ["raise"], ["c1"]]),
+            ("empty", [["c2", "rem"], ["lower"], ["c1"]]),
         ]
     rnd = []
     while len(rnd) < n:
@@ -570,6 +600,8 @@ def work(ctx, tier):
             fixed, rnd = programs_for(kind, rng, nprog if kind == "breaker" else max(nprog // 2, 2))
             # fixed programs are split across shards, random ones differ per shard already
             progs = [fp for i, fp in enumerate(fixed) if i % ctx.nshards == ctx.shard] + rnd
+            if tier == "quick":
+                progs = [p_ for p_ in progs if p_[0] not in ("aged-9999", "aged-65535")]  # the longest warm-ups run in the thorough tier only
             for i, (init, prog) in enumerate(progs):
                 k = explore(ctx, kind, init, prog, world, rng, bound, limit, nrandom)
                 if ctx.viol_keys.get("deadlock"):
